@@ -12,7 +12,7 @@ import (
 // Ctx carries the loaded program plus the derived call graph and entry points.
 type Ctx struct {
 	Repo, Verif, Tier string
-	maxDepthSeen     int
+	maxDepthSeen      int
 	P                 *Program
 
 	edges      map[*ssa.Function][]Edge
